@@ -119,7 +119,7 @@ func explainedByOffByOne(rec histRecord, res *ser.Result, b *built) bool {
 	}
 	size := uint32(f.Size())
 	for _, p := range rec.Probes {
-		n := uint32(p[0])
+		n := b.numOf(p[0])
 		if p[0] == beyond {
 			n = size + uint32(p[1])*3
 		}
